@@ -24,10 +24,11 @@ func (gc GeometryCollection) Len() int {
 
 // Points returns an iterator for the points in the receiver.
 func (gc GeometryCollection) Points() func() Point {
-	var i, j int
-	p := gc[0].Points()
+	var i int
+	j := -1
+	var p func() Point
 	return func() Point {
-		if i == gc[j].Len() {
+		for j < 0 || i == gc[j].Len() { // skip empty members
 			j++
 			i = 0
 			p = gc[j].Points()
